@@ -394,9 +394,9 @@ def run_kani(harnesses, package=None, flags=None, timeout=600, jobs=8, repo=None
         cwd = os.path.join(sc, package)
         if not os.path.exists(os.path.join(cwd, "Cargo.lock")):
             shutil.copy(os.path.join(sc, "Cargo.lock"), os.path.join(cwd, "Cargo.lock"))
-    cmd += flags or []
     for h in harnesses:
         cmd += ["--harness", h]
+    cmd += flags or []      # last: `--cbmc-args` swallows everything after it
     rc, out, err, dt = sh(cmd, cwd=cwd, timeout=timeout * (1 + len(harnesses) // max(jobs, 1)) + 900)
     parsed = parse_kani(out + "\n" + err)
     results = {}
